@@ -38,14 +38,18 @@ var c15Arrays = []c15Arr{
 	{"c", func() *ast.Node { return ast.Id("c") }},
 	{"$.list", func() *ast.Node { return ast.Mem(ast.Dollar(), "list") }},
 	{"o.items", func() *ast.Node { return ast.Mem(ast.Id("o"), "items") }},
+	// two arrays that are empty in the document: each is a list of its own
+	{"$.e1", func() *ast.Node { return ast.Mem(ast.Dollar(), "e1") }},
+	{"$.e2", func() *ast.Node { return ast.Mem(ast.Dollar(), "e2") }},
 }
 
 func (g *c15Gen) program(extra ...*ast.Node) *DCase {
 	stmts := append(append([]*ast.Node{}, g.stmts...), extra...)
 	return &DCase{
 		Prog: ast.Prog(ast.Func("mk", nil, ast.Block(ast.Return(ast.Arr(ast.Num("7"), ast.Str("8"), ast.Num("9"))))),
+			ast.Func("size", []string{"sz"}, ast.Block(ast.Return(ast.Method(ast.Id("sz"), "length")))),
 			ast.Rule("pattern", nil, ast.Block(stmts...))),
-		Files: []DFile{{Name: "in", Docs: []string{`{"list":[3,1,2]}`}}},
+		Files: []DFile{{Name: "in", Docs: []string{`{"list":[3,1,2],"e1":[],"e2":[]}`}}},
 	}
 }
 
@@ -75,9 +79,9 @@ func (g *c15Gen) pickArr(l string) c15Arr { return c15Arrays[g.n(0, len(c15Array
 func arrLen(st ref.Result, a c15Arr) int {
 	var v ref.V
 	switch a.name {
-	case "$.list":
+	case "$.list", "$.e1", "$.e2":
 		if st.Dollar != nil && st.Dollar.K == ref.KObj {
-			if l := st.Dollar.O.Get("list"); l != nil {
+			if l := st.Dollar.O.Get(a.name[2:]); l != nil {
 				v = l.V
 			}
 		}
@@ -168,6 +172,10 @@ func (g *c15Gen) action() bool {
 		label = "index-write"
 	case k == 12:
 		res(ast.Method(a.expr(), "length"))
+		if g.b("lengthsite") {
+			// one length() site that sees a string, an object and then the array
+			res(ast.Arr(ast.Call(ast.Id("size"), ast.Str("abc")), ast.Call(ast.Id("size"), ast.Obj(ast.KV("k", ast.Num("1")))), ast.Call(ast.Id("size"), a.expr())))
+		}
 		label = "length"
 	case k <= 14:
 		if g.n(0, 7, "unsetneedle") == 0 {
